@@ -67,13 +67,13 @@ def run(ctx):
             if cfg.name == 'Cem':
                 return True
             if cfg.name == 'r':
-                return spec.name in ('ln_basic', 'ln_trail', 'ln_none')
+                return spec.name in ('ln_basic', 'ln_trail', 'ln_tc_var', 'ln_none')
             return False
         return cfg.name in ('Cem', 'r') or 'e1' in spec.tags
 
     # every first-token job asserts yylineno against the newlines of the consumed text
     table_facts(ctx, pairs)
-    common.tokenization_pairs(ctx, pairs, e1_tag=None, e1_lengths=range(0, 3) if quick else range(0, 6),
+    common.tokenization_pairs(ctx, pairs, e1_tag=None, e1_lengths=range(0, 5) if quick else range(0, 7),
                               e2_cap=8 if quick else 14, e1_filter=e1_filter,
                               full_e1_lengths=range(0, 4) if quick else range(0, 5),
                               e2_filter=lambda s, c: c.name == 'Cem')
